@@ -237,6 +237,9 @@ func genInbox(r *rng, ty string, k int) *scenario {
 		for i := 0; i < 1+r.intn(3); i++ {
 			targets = append(targets, pick(r, []string{local + "/cols/1", local + "/cols/2", remote + "/cols/7", local + "/notes/1"}))
 		}
+		if r.chance(1, 3) { // the same target named twice
+			targets = append(targets, targets[0])
+		}
 		act["object"] = one(objs)
 		act["target"] = one(targets)
 		if r.chance(1, 10) {
@@ -418,6 +421,9 @@ func genOutbox(r *rng, ty string, k int) *scenario {
 		}
 		for i := 0; i < 1+r.intn(3); i++ {
 			targets = append(targets, pick(r, []string{local + "/cols/1", local + "/cols/2", remote + "/notes/9", local + "/notes/1"}))
+		}
+		if r.chance(1, 3) { // the same target named twice
+			targets = append(targets, targets[0])
 		}
 		body["object"] = one(objs)
 		body["target"] = one(targets)
